@@ -324,6 +324,10 @@ type Program struct {
 	PkgIdents []string `json:"pkg_idents,omitempty"`
 	// InjBlankImports / InjRaw: blank imports and raw declarations added to injector file 0.
 	InjBlankImports []string `json:"inj_blank_imports,omitempty"`
+	// BlankLibs: blank-import the program's own non-empty library packages, in an ordinary file
+	// of package 0 ("file") or in injector file 0 ("injector"); resolved when rendering, so that
+	// mutants that empty a package stay well-formed.
+	BlankLibs string `json:"blank_libs,omitempty"`
 	InjRaw          string   `json:"inj_raw,omitempty"`
 	// AliasImports: the user's files import the program's own packages under an alias that
 	// differs from the package name (al_<name>).
@@ -463,6 +467,29 @@ func (p *Program) Clone() *Program {
 	q.PkgVars = append([]string(nil), p.PkgVars...)
 	q.PkgIdents = append([]string(nil), p.PkgIdents...)
 	q.InjBlankImports = append([]string(nil), p.InjBlankImports...)
+	q.BlankLibs = p.BlankLibs
 	q.InjRaw = p.InjRaw
 	return q
+}
+
+// blankLibPaths lists the import paths of the library packages that have declarations.
+func (p *Program) blankLibPaths() []string {
+	var out []string
+	for k := 1; k < len(p.Pkgs); k++ {
+		has := false
+		for _, d := range p.Decls {
+			if d.Pkg == k {
+				has = true
+			}
+		}
+		for _, it := range p.Items {
+			if it.Kind == KFunc && it.Pkg == k {
+				has = true
+			}
+		}
+		if has {
+			out = append(out, p.ImportPath(k))
+		}
+	}
+	return out
 }
